@@ -59,24 +59,29 @@ def geometry(cfg):
     return {(f, 0, a, b): [((f, oy, ox), (0, oy + a, ox + b)) for oy in range(H - kh + 1) for ox in range(W - kw + 1)] for f in range(Fn) for a in range(kh) for b in range(kw)}
 
 
-def make_trainer(variant, lr_pos, lr_neg, red):
+def make_trainer(variant, lr_pos, lr_neg, red, tensor_kwargs=False):
     import inferno.learn as learn
     import inferno.functional as fn
     redfn = {"sum": torch.sum, "mean": torch.mean}[red]
+    if tensor_kwargs:
+        # kernel hyper-parameters handed over as tensors (documented: registered as buffers of the cell state)
+        tw = lambda d: {k: torch.tensor(float(v)) for k, v in d.items()}
+    else:
+        tw = lambda d: d
     kk = dict(kernel_post=fn.exp_stdp_post_kernel, kernel_pre=fn.exp_stdp_pre_kernel)
     if variant == "da-stdp":
         return learn.DelayAdjustedSTDP(lr_pos, lr_neg, TC_POS, TC_NEG, batch_reduction=redfn), "weight"
     if variant == "da-stdpd":
         return learn.DelayAdjustedSTDPD(lr_neg, lr_pos, TC_NEG, TC_POS, batch_reduction=redfn), "delay"
     if variant == "da-kernel":
-        return learn.DelayAdjustedKernelSTDP(kernel_post_kwargs=dict(learning_rate=lr_pos, time_constant=TC_POS), kernel_pre_kwargs=dict(learning_rate=lr_neg, time_constant=TC_NEG),
+        return learn.DelayAdjustedKernelSTDP(kernel_post_kwargs=tw(dict(learning_rate=lr_pos, time_constant=TC_POS)), kernel_pre_kwargs=tw(dict(learning_rate=lr_neg, time_constant=TC_NEG)),
                                              batch_reduction=redfn, **kk), "weight"
     if variant == "da-kerneld":
         # delay rule: the causal side (t_delta >= 0, K_post) carries eta_-/tau_-, the anti-causal side eta_+/tau_+
-        return learn.DelayAdjustedKernelSTDPD(kernel_post_kwargs=dict(learning_rate=lr_neg, time_constant=TC_NEG), kernel_pre_kwargs=dict(learning_rate=lr_pos, time_constant=TC_POS),
+        return learn.DelayAdjustedKernelSTDPD(kernel_post_kwargs=tw(dict(learning_rate=lr_neg, time_constant=TC_NEG)), kernel_pre_kwargs=tw(dict(learning_rate=lr_pos, time_constant=TC_POS)),
                                               batch_reduction=redfn, **kk), "delay"
     if variant == "kernel":
-        return learn.KernelSTDP(kernel_post_kwargs=dict(learning_rate=lr_pos, time_constant=TC_POS), kernel_pre_kwargs=dict(learning_rate=lr_neg, time_constant=TC_NEG),
+        return learn.KernelSTDP(kernel_post_kwargs=tw(dict(learning_rate=lr_pos, time_constant=TC_POS)), kernel_pre_kwargs=tw(dict(learning_rate=lr_neg, time_constant=TC_NEG)),
                                 delayed=False, batch_reduction=redfn, **kk), "weight"
     if variant == "da-mstdp":
         return learn.DelayAdjustedMSTDP(lr_pos, lr_neg, TC_POS, TC_NEG, batch_reduction=redfn), "weight"
@@ -116,7 +121,7 @@ def run(e, cfg, variant, layer, conn, neuron, inputs, delays, signals=None, chec
         tr, param = make_trainer(variant, c_pos, c_neg, red)
         tr.register_cell("c", layer.cell, lr_pos=lr_pos, lr_neg=lr_neg)
     else:
-        tr, param = make_trainer(variant, lr_pos, lr_neg, red)
+        tr, param = make_trainer(variant, lr_pos, lr_neg, red, tensor_kwargs=bool(cfg.get("tensor_kwargs")))
         tr.register_cell("c", layer.cell)
     for_delay = param == "delay"
     kd = K(dt)
@@ -296,6 +301,10 @@ def checks(tier):
                         for B, red in (((1, "sum"), (2, "mean"), (2, "sum")) if th else ((2, "mean") if sg != "tensor" else (1, "sum"),)):
                             for dt in ((1.0, 1.3) if th else (1.3,)):
                                 form.append(dict(variant=variant, signs=signs, cell=cell, delays=delays, signal=sg, B=B, reduction=red, dt=dt, T=(Tn if sg != "tensor" or B == 1 else 2)))
+    # kernel hyper-parameters given as tensors
+    for variant in ("da-kernel", "da-kerneld", "kernel"):
+        for signs in (tuple(SIGNS) if th else ("hebbian", "depressive")):
+            form.append(dict(variant=variant, signs=signs, cell="dense", delays=("zero" if variant == "kernel" else "symbolic"), signal="-", B=1, reduction="sum", dt=1.3, T=3, tensor_kwargs=True))
     # per-cell learning-rate overrides whose signs differ from the trainer's defaults
     for variant in ("da-stdp", "da-stdpd", "da-mstdp", "da-mstdpd"):
         for ctor, signs in ((("hebbian", "antihebbian"), ("antihebbian", "hebbian"), ("potentiative", "depressive"), ("hebbian", "depressive")) if th else (("hebbian", "antihebbian"), ("depressive", "hebbian"))):
